@@ -1470,7 +1470,9 @@ def longitude_continuity(coordinates, region):
         if interval_360:
             longitude = longitude % 360
         else:
-            longitude = ((longitude + 180) % 360) - 180
+            # Same sequence of operations as for the region boundaries above so
+            # that a point on a boundary stays exactly on it after round-off
+            longitude = (((longitude % 360) + 180) % 360) - 180
         coordinates = np.array(coordinates)
         coordinates[0] = longitude
         return coordinates, region
